@@ -31,6 +31,12 @@ def parseBool (s : String) : Option Bool :=
 def showRat (q : Rat) : String :=
   if q.den = 1 then toString q.num else toString q.num ++ "/" ++ toString q.den
 
+/-- Floats travel as their IEEE-754 bit pattern `f:<decimal UInt64>` in both directions (exact). -/
+def showFloat (x : Float) : String := "f:" ++ toString x.toBits.toNat
+
+def parseFloat (s : String) : Option Float :=
+  if s.startsWith "f:" then (s.drop 2).toString.toNat?.map (fun n => Float.ofBits (UInt64.ofNat n)) else none
+
 def showBool (b : Bool) : String := if b then "1" else "0"
 
 def showList {β : Type} (f : β → String) (l : List β) : String :=
